@@ -24,6 +24,21 @@
   (`C07_generated_*`), and the frame condition itself (no module-level mutable
   state: scan table).  OS scheduling and pickling fidelity are exercised by
   harness/streams.py, not proved.
+
+  Class-level state.  An attribute bound in a class body to a mutable value is one
+  object per process: every chain that holds an instance reaches it, no pickled or
+  deep-copied chain contains it, and a worker process has its own version of it
+  (whatever it was when the worker was created).  `C07_class_state_is_shared` says
+  that such an object, as soon as two chains reach it, falsifies the hypothesis
+  `Shared = ∅` of everything above; `C07_worker_class_state_irrelevant` says that a
+  pool whose workers hold *another* version of the class-level objects still returns
+  what the serial run returns provided no chain reaches a class-level object, and
+  `C07_pinned_counterexample_class_state` that this proviso is necessary (a reset
+  that restores from a class-level dictionary: seeded change C07-D).  That the
+  package has no such object is not proved but measured on every run:
+  `C07_generated_no_shared_class_state` (`decide` over the table of class-level
+  mutable attributes that gen_sharing.py regenerates from the source), and the
+  harness compares the class-level attributes before and after the runs.
 -/
 import EpsieProofs.StreamsLemmas
 import EpsieModel.Generated.Sharing
@@ -153,6 +168,82 @@ theorem C07_pinned_counterexample_shared_annealer (v : Variant) (hv : v.annealer
   subst hv
   cases d <;> cases r <;> exact ⟨_, rfl, by decide, by decide⟩
 
+/-! ### Class-level state: shared by construction, and not copied to workers -/
+
+/-- Independence needs no shared mutable class state: an object that two different
+    chains can reach — a class-level dictionary is reachable from every instance of the
+    class, whatever was deep-copied per chain — makes the `Shared` store non-empty, so
+    none of the theorems above applies to such a sampler. -/
+theorem C07_class_state_is_shared {V : Type} (S : Sys V) (l i j : Nat) (hi : i < S.n) (hj : j < S.n)
+    (hij : i ≠ j) (hli : l ∈ S.fp i) (hlj : l ∈ S.fp j) : S.shared ≠ [] := by
+  intro hs
+  exact disjoint_of_shared_nil S hs i j hi hj hij l hli hlj
+
+/-- What a worker process works on: the pickled objects as the parent sent them, except
+    the class-level objects `cls`, of which the worker has its own version `hw` (class
+    attributes are not part of a pickled instance; a worker created before the proposals
+    were constructed, or with the spawn start method, never saw the parent's values). -/
+def workerHeap {V : Type} (cls : List Nat) (hw h0 : Heap V) : Heap V :=
+  fun l => if l ∈ cls then hw l else h0 l
+
+/-- `Shared = ∅` and no chain reaches a class-level object ⇒ a pool whose workers hold any
+    other version of the class-level objects hands back, for every chain, what the
+    built-in `map` hands back in the parent process. -/
+theorem C07_worker_class_state_irrelevant {V : Type} (S : Sys V) (hframe : S.Framed) (hshared : S.shared = [])
+    (cls : List Nat) (hcls : ∀ i, i < S.n → ∀ l, l ∈ S.fp i → l ∉ cls)
+    (p : Pool) (hp : p.ValidFor S.n) (h0 hw : Heap V) :
+    ∀ i, i < S.n → ∀ l, l ∈ S.fp i →
+      result S p (workerHeap cls hw h0) i l = result S (Pool.serial S.n) h0 i l := by
+  intro i hi l hl
+  have hd := disjoint_of_shared_nil S hshared
+  rw [result_eq_step S hframe hd p hp _ i hi l hl,
+      result_eq_step S hframe hd _ (serial_valid S.n) h0 i hi l hl]
+  refine (hframe i).2 _ _ (fun l' hl' => ?_) l hl
+  simp [workerHeap, hcls i hi l' hl']
+
+/-- Two chains with private proposals (identities 1, 2); stepping chain 0 *resets* its
+    proposal to the value kept in a class-level dictionary (identity 0), chain 1 adapts its
+    own.  Nothing is shared between the chains. -/
+def resetsFromClass : Sys Nat :=
+  { n := 2
+    fp := fun i => if i = 0 then [0, 1] else [2]
+    step := fun i h l => if i = 0 then (if l = 1 then h 0 else h l) else (if l = 2 then h 2 + 1 else h l) }
+
+theorem resetsFromClass_framed : resetsFromClass.Framed := by
+  intro i
+  constructor
+  · intro h l hl
+    by_cases hi : i = 0
+    · subst hi
+      simp only [resetsFromClass, if_true, List.mem_cons, List.not_mem_nil, or_false, not_or] at hl
+      simp [resetsFromClass, hl.2]
+    · simp only [resetsFromClass, if_neg hi, List.mem_singleton] at hl
+      simp [resetsFromClass, hi, hl]
+  · intro h h' hagree l hl
+    by_cases hi : i = 0
+    · subst hi
+      have h0 : h 0 = h' 0 := hagree 0 (by simp [resetsFromClass])
+      simp only [resetsFromClass, if_true, List.mem_cons, List.not_mem_nil, or_false] at hl
+      simp only [resetsFromClass, if_true]
+      split
+      · exact h0
+      · exact hagree l (by simp [resetsFromClass, hl])
+    · simp only [resetsFromClass, if_neg hi, List.mem_singleton] at hl
+      subst hl
+      have h2 : h 2 = h' 2 := hagree 2 (by simp [resetsFromClass, hi])
+      simp [resetsFromClass, hi, h2]
+
+/-- Seeded change C07-D: the system is framed and shares nothing, yet a copying pool whose
+    workers hold an *empty* class-level dictionary (value 0 instead of the parent's 5)
+    returns another proposal for chain 0 than the serial run: the proviso of
+    `C07_worker_class_state_irrelevant` (no chain reaches a class-level object) is necessary. -/
+theorem C07_pinned_counterexample_class_state :
+    resetsFromClass.Framed ∧ resetsFromClass.shared = [] ∧ (Pool.copying 2).ValidFor 2 ∧
+    (0 ∈ resetsFromClass.fp 0 ∧ 0 ∈ [0]) ∧
+    result resetsFromClass (Pool.copying 2) (workerHeap [0] (fun _ => 0) (fun l => if l = 0 then 5 else 1)) 0 1 ≠
+      result resetsFromClass (Pool.serial 2) (fun l => if l = 0 then 5 else 1) 0 1 := by
+  refine ⟨resetsFromClass_framed, by decide, copying_valid 2, by decide, by decide⟩
+
 /-! ### Obligations about the tables regenerated from /repo on every run -/
 
 open Epsie.Generated.Sharing in
@@ -181,6 +272,15 @@ open Epsie.Generated.Sharing in
 theorem C07_generated_scan_sites_accounted :
     ∀ s, s ∈ scanSites → s.accounted variant = true := by decide
 
+open Epsie.Generated.Sharing in
+/-- No class-level (or module-level) attribute of the package bound to a mutable value is
+    mutated through an instance, the class or an alias (outside the justified allow-list):
+    the sharing edge that the traversal behind `crossChain` cannot see — and that a worker
+    process would not receive (`C07_worker_class_state_irrelevant`) — does not exist in the
+    source scanned today. -/
+theorem C07_generated_no_shared_class_state :
+    classState.filter (fun s => !s.allowed) = [] := by decide
+
 /-! ### Non-vacuity -/
 
 /-- three chains with private counters: framed, nothing shared, any pool allowed -/
@@ -204,6 +304,18 @@ example : independent.shared = [] := by decide
 example : Pool.ValidFor [[2, 0], [1]] 3 := by decide
 example : result independent [[2, 0], [1]] (fun _ => 0) 0 0 = result independent (Pool.serial 3) (fun _ => 0) 0 0 :=
   C07_pool_irrelevant independent independent_framed (by decide) [[2, 0], [1]] (by decide) _ 0 (by decide) 0 (by simp [independent])
+
+/-- the worker theorem is not vacuous: `independent` reaches no object of `cls = [7]`, and a chunked pool
+    whose workers see 99 there returns what the serial run returns -/
+example : result independent [[2, 0], [1]] (workerHeap [7] (fun _ => 99) (fun _ => 0)) 2 2 =
+    result independent (Pool.serial 3) (fun _ => 0) 2 2 :=
+  C07_worker_class_state_irrelevant independent independent_framed (by decide) [7]
+    (by intro i hi l hl; simp only [independent, List.mem_singleton] at hi hl; simp only [List.mem_singleton]; omega)
+    [[2, 0], [1]] (by decide) _ _ 2 (by decide) 2 (by simp [independent])
+
+/-- and the sharing theorem applies to `coupled` (object 0 is in both footprints) -/
+example : coupled.shared ≠ [] :=
+  C07_class_state_is_shared coupled 0 0 1 (by decide) (by decide) (by decide) (by simp [coupled]) (by simp [coupled])
 
 def repaired : Variant := ⟨.asGiven, true, true⟩
 
